@@ -48,6 +48,9 @@ template <class T>
 using A = std::allocator<T>;
 static const char *kAllocName = "std";
 #endif
+// a second allocator TYPE (swap2 between vectors whose allocators differ)
+template <class T>
+using A2 = vh::StdLike<T, 1>;
 #ifndef CFG_TYPES
 #define CFG_TYPES amc::SmallVector<E, 2, A<E>, uint32_t>
 #endif
@@ -71,6 +74,7 @@ struct Traits {  // std::vector (reference implementation)
   static constexpr bool amc = false;
   static const char *flav() { return "vector"; }
   static long n() { return 0; }
+  static int aid() { return 1; }
 };
 template <class T, class Al, class S, class G, S N>
 struct Traits<amc::Vector<T, Al, S, G, N>> {
@@ -78,6 +82,7 @@ struct Traits<amc::Vector<T, Al, S, G, N>> {
   static constexpr bool dynamic = std::is_same<G, amc::vec::DynamicGrowingPolicy>::value;
   static const char *flav() { return !dynamic ? "fixed" : (N == 0 ? "vector" : "small"); }
   static long n() { return static_cast<long>(N); }
+  static int aid() { return std::is_same<Al, A2<T>>::value ? 2 : (dynamic ? 1 : 0); }
 };
 
 static const char *elemName() {
@@ -423,7 +428,7 @@ static void run1(Slot<T> &s, const Label &lb, Result &r) {
     guarded(lb, r, [&] { v.resize(static_cast<SZ>(lb.n), *arg); });
   } else if (op == "clear") {
     guarded(lb, r, [&] { v.clear(); });
-  } else if (op == "reserve") {
+  } else if (op == "reserve" || op == "reserveBig") {
     guarded(lb, r, [&] { v.reserve(static_cast<SZ>(lb.n)); });
   } else if (op == "shrinkToFit") {
     guarded(lb, r, [&] { v.shrink_to_fit(); });
@@ -688,7 +693,8 @@ static std::string configJson(std::index_sequence<I...>) {
              "\",\"n\":" + std::to_string(Traits<typename std::tuple_element<I, Types>::type>::n()) + ",\"maxsz\":" +
              std::to_string(clampL(std::numeric_limits<typename std::tuple_element<I, Types>::type::size_type>::max())) +
              ",\"ref\":" + (Traits<typename std::tuple_element<I, Types>::type>::amc ? "false" : "true") +
-             ",\"tid\":" + std::to_string(tid[idx]) + ",\"sizeof\":" +
+             ",\"tid\":" + std::to_string(tid[idx]) + ",\"aid\":" +
+             std::to_string(Traits<typename std::tuple_element<I, Types>::type>::aid()) + ",\"sizeof\":" +
              std::to_string(sizeof(typename std::tuple_element<I, Types>::type)) + ",\"reloc\":" +
              (amc::is_trivially_relocatable<typename std::tuple_element<I, Types>::type>::value ? "true" : "false") + "}"),
        first = false, ++idx, 0)...};
